@@ -25,6 +25,9 @@ MUT = [
  ("C15", "qkeras/qconv2d_batchnorm.py", "      folded_bias = inv * (bias - new_mean) + beta", "      folded_bias = inv * (bias - new_mean)", "QConv2DBatchnorm"),
  ("C15", "qkeras/qconv2d_batchnorm.py", "          lambda: mv_inv * (bias - moving_mean) + beta)", "          lambda: mv_inv * (bias + moving_mean) + beta)", "QConv2DBatchnorm"),
  ("C15", "qkeras/qdepthwiseconv2d_batchnorm.py", "      inv = tf_utils.smart_cond(bn_training, lambda: batch_inv, lambda: mv_inv)", "      inv = tf_utils.smart_cond(bn_training, lambda: mv_inv, lambda: batch_inv)", "QDepthwiseConv2DBatchnorm"),
+ ("C12", "qkeras/utils.py", '  quantizer = quantizer_config.get(layer["config"]["name"],\n                                   quantizer_config.get(layer_class, None))', '  quantizer = quantizer_config.get(layer_class,\n                                   quantizer_config.get(layer["config"]["name"], None))', "Dense_both"),
+ ("C12", "qkeras/utils.py", '      if layer_config["use_bias"]:\n        bias_quantizer = get_config(\n            quantizer_config, layer, q_name, "bias_quantizer")\n      else:\n        bias_quantizer = None\n\n      if (kernel_quantizer is None and', '      bias_quantizer = get_config(\n          quantizer_config, layer, q_name, "bias_quantizer")\n\n      if (kernel_quantizer is None and', "Conv2D_"),
+ ("C12", "qkeras/utils.py", "  jm = copy.deepcopy(json.loads(model.to_json()))\n  custom_objects = copy.deepcopy(custom_objects)", "  jm = copy.deepcopy(json.loads(model.to_json()))", "Dense_class"),
  ("C16", "qkeras/qtools/quantized_operators/multiplier_impl.py", "    self.output.int_bits = self.input.int_bits + self.weights.int_bits", "    self.output.int_bits = max(self.input.int_bits, self.weights.int_bits)", "qbits_x_qbits"),
  ("C17", "qkeras/qtools/quantized_operators/accumulator_impl.py", "    self.log_add_ops = int(np.ceil(np.log2(add_ops)))", "    self.log_add_ops = int(np.floor(np.log2(add_ops)))", "qbits_rank2"),
  ("C17", "qkeras/qtools/quantized_operators/adder_impl.py", "    fractional_bits = max(fractional_bits1, fractional_bits2)", "    fractional_bits = min(fractional_bits1, fractional_bits2)", "qbits_plus_qbits"),
